@@ -266,6 +266,19 @@ func canonType(t types.Type, q types.Qualifier) string {
 		if tt.NumMethods() == 0 {
 			return "any"
 		}
+	case *types.Signature:
+		var ps, rs []string
+		for i := 0; i < tt.Params().Len(); i++ {
+			ps = append(ps, canonType(tt.Params().At(i).Type(), q))
+		}
+		for i := 0; i < tt.Results().Len(); i++ {
+			rs = append(rs, canonType(tt.Results().At(i).Type(), q))
+		}
+		v := ""
+		if tt.Variadic() {
+			v = "..."
+		}
+		return "func" + v + "(" + strings.Join(ps, ",") + ")(" + strings.Join(rs, ",") + ")"
 	}
 	return types.TypeString(t, q)
 }
